@@ -129,7 +129,7 @@ class Sim:
         return 0 if l is None else l[1] + 1
 
 
-def gen_history(rnd, nops, p_reject=0.12, p_boundary=0.15, flush_every=None, reads=True, allow_limits=False, max_batch=4, noop_purge=True, index_limit_rejects=False):
+def gen_history(rnd, nops, p_reject=0.12, p_boundary=0.15, flush_every=None, reads=True, allow_limits=False, max_batch=4, noop_purge=True, index_limit_rejects=False, partial_batches=True):
     """Returns a list of op strings (without the trailing observation ops)."""
     s = Sim()
     ops = []
@@ -139,7 +139,10 @@ def gen_history(rnd, nops, p_reject=0.12, p_boundary=0.15, flush_every=None, rea
     def obs():
         if reads and rnd.random() < 0.35:
             lo = max(0, s.next_index() - rnd.randint(0, 12))
-            ops.append("R %d %d" % (lo, s.next_index() + rnd.randint(0, 3)))
+            hi = s.next_index() + rnd.randint(0, 3)
+            if rnd.random() < 0.08:
+                lo, hi = hi, lo                      # an inverted range reads nothing
+            ops.append("R %d %d" % (lo, hi))
         if rnd.random() < 0.5:
             ops.append("G")
 
@@ -150,6 +153,22 @@ def gen_history(rnd, nops, p_reject=0.12, p_boundary=0.15, flush_every=None, rea
             # an operation the specification refuses
             k = rnd.randrange(7 if index_limit_rejects else 5)
             stats["rejected"] += 1
+            if partial_batches and max_batch >= 3 and last is not None and rnd.random() < 0.25:
+                # a batch whose first entries are accepted and whose last one is refused (gap, or
+                # id not above the one before): the accepted ones stay, the refused one leaves no trace
+                term = max(last[0], s.term)
+                n_ok = rnd.randint(1, max_batch - 1)
+                es = []
+                for j in range(n_ok):
+                    pl = rand_payload(rnd)
+                    s.entries.append((term, last[1] + 1 + j, pl))
+                    es.append("%d %d %s" % (term, last[1] + 1 + j, hx(pl)))
+                bad_idx = last[1] + 1 + n_ok + rnd.choice([1, 2]) if rnd.random() < 0.6 else last[1] + n_ok
+                es.append("%d %d %s" % (term, bad_idx, hx(rand_payload(rnd))))
+                ops.append("A " + " ".join(es))
+                stats["appends"] += n_ok
+                obs()
+                continue
             if k == 5:
                 # a purge the crate refuses outright (index u64::MAX can not be stored)
                 ops.append("P %d 18446744073709551615" % (last[0] if last else s.term))
